@@ -8,8 +8,8 @@ CHECKS = {
    text='Bounded stand-in for a whole-history property: 2000 (quick) / 50000 (thorough) seeded histories of up to 50 API calls (dis, both renderings, asm, asm_att, lift, expr_simp, get_r/get_w, eval_expr on five machines, eval_instr, calls that raise) over shared objects, each history in a process forked from one pristine parent; every argument must be structurally unchanged after every call, the probe call repeated after every step must return an equal result, and must return the same on fresh structurally equal objects; shared decode tables are digested before/after; the assembler must give identical results with an empty, warm, stale (4 grammar variants with the same rule names) and garbage parser-table cache directory. Static: 102 of 122 store sites of the IR layer are discharged syntactically (target allocated in the same call).',
    note='Not a proof: history independence has no contract-shaped statement without ghost state. A failing repetition is attributed to the memo flag that explains it (is_eval / simp on a node of the probe argument), so that the known finding (flag on shared register objects) does not hide a new leak on another node class.',
    ref='5 C12'),
- 'C02': dict(cat='other', tech='bounded run-time contract on x86_mn.asm / asm_att ("every candidate decodes, with its full length, to exactly the requested instruction") over generated abstract instructions; reference = independent IA-32 spec decoder specs/x86dec.py; immediate and displacement boundary values; the immediate-fitting helper check_imm_size (+ imm_to_generic) verified from its AST by VC generation (pyvc, z3; callee contracts of C14) for all immediates',
-   text='Bounded, structurally complete over the operand-shape space: one abstract instruction per (mnemonic, operand kinds/sizes, register class, prefix set, addressing shape) from the spec decoding of the enumerated decoder trie (~3.5k quick / all register numbers and SIB bytes thorough), each rendered in Intel and AT&T syntax with the boundary immediates (-129..2^32-1) and displacements (-129..128); every returned candidate is decoded by the spec decoder and compared structurally (mnemonic class, operands modulo width, prefixes). Proved (359 obligations): check_imm_size returns None or a field whose zero-/sign-extension is congruent to the immediate modulo the width the form stands for - a value that does not fit excludes the form. Not a proof of the whole: the assembler search (asm_candidates, 400 lines of table matching) is outside the VC generator.',
+ 'C02': dict(cat='other', tech='bounded run-time contract on x86_mn.asm / asm_att ("every candidate decodes, with its full length, to exactly the requested instruction") over generated abstract instructions; reference = independent IA-32 spec decoder specs/x86dec.py; immediate and displacement boundary values; the immediate-fitting helper check_imm_size (+ imm_to_generic) and the displacement classifier ad_to_generic verified from their AST by VC generation (pyvc, z3; callee contracts of C14) for all immediates',
+   text='Bounded, structurally complete over the operand-shape space: one abstract instruction per (mnemonic, operand kinds/sizes, register class, prefix set, addressing shape) from the spec decoding of the enumerated decoder trie (~3.5k quick / all register numbers and SIB bytes thorough), each rendered in Intel and AT&T syntax with the boundary immediates (-129..2^32-1) and displacements (-129..128); every returned candidate is decoded by the spec decoder and compared structurally (mnemonic class, operands modulo width, prefixes). Proved (493 obligations): ad_to_generic keeps every key, tags the displacement u08/s08/u32 only where the value fits and never loses the disp8 or disp32 form; check_imm_size returns None or a field whose zero-/sign-extension is congruent to the immediate modulo the width the form stands for - a value that does not fit excludes the form. Not a proof of the whole: the assembler search (asm_candidates, 400 lines of table matching) is outside the VC generator.',
    note='Trusted: specs/x86dec.py, the printer bounded/asmgen.py (forms it cannot print unambiguously are skipped: 16-bit addressing, relative/far operands, x87 in AT&T, string ops in AT&T). MMX/SSE: 5 operand forms per table row and mandatory prefix, reference GNU objdump (checks/asmsse.py).',
    ref='5 C02'),
  'C03': dict(cat='other', tech='bounded run-time contract on the composition dis . asm and asm . str . dis over generated instructions; canonical byte strings supplied by the real GNU assembler (as --32, executed as an external function)',
